@@ -27,7 +27,7 @@ ASSUMPTIONS = ['vf/gmpy2_shim.py implements the documented integer semantics of 
                'gmpy2.mpz not being an int subclass cannot be seen',
                'both children execute the same operation stream (argument digests are compared record by record)']
 SHARD_TIMEOUT = {'quick': 600, 'thorough': 3000}
-LEVEL_TEXT = ('exploration: ~2.6*10^5 (quick) / ~2.5*10^6 (thorough) seeded operations executed in a python-backend process and '
+LEVEL_TEXT = ('exploration: ~6.4*10^5 (quick) / ~6.4*10^6 (thorough) seeded operations executed in a python-backend process and '
               'in a shim-gmpy-backend process of the same working tree (BACKEND == "gmpy", mpf_mul is gmpy_mpf_mul, '
               'numeral is numeral_gmpy, gmpy cutoffs 400/200 asserted in the child); results compared bit for bit')
 LEVEL_NOTE = ('trusted base: the shim stands in for gmpy2\'s C primitives (mpz as int subclass with exact Python integer '
@@ -38,8 +38,9 @@ TECHNIQUE = 'differential runtime monitor: identical seeded operation streams in
 
 N_SHARDS = 16
 LEGACY_SHARDS = (12, 13, 14, 15)
-OPS_PER_SHARD = {'quick': 16000, 'thorough': 160000}
-CHILD_TIMEOUT = {'quick': 500, 'thorough': 2700}
+OPS_PER_SHARD = {'quick': 40000, 'thorough': 400000}
+BATCH = 40000            # operations per pair of child processes (bounds memory; every batch starts from cold caches)
+CHILD_TIMEOUT = {'quick': 500, 'thorough': 900}        # per batch
 MODES = ('n', 'f', 'c', 'd', 'u')
 
 # Routines that are *documented* as approximate and for which a difference between the backends was shown to be
@@ -924,10 +925,10 @@ def fixed_ops(shard_index):
     return ops
 
 
-def gen_ops(seed, shard_index, n):
-    """the operation stream of a shard: list of (cls, fname, encoded args)"""
-    r = G.rng(PROP, seed, shard_index)
-    ops = fixed_ops(shard_index)
+def gen_ops(seed, shard_index, n, batch=0):
+    """the operation stream of one batch of a shard: list of (cls, fname, encoded args)"""
+    r = G.rng(PROP, seed, shard_index if not batch else '%d.%d' % (shard_index, batch))
+    ops = fixed_ops(shard_index) if not batch else []
     L = len(SCHEDULE)
     off = shard_index * 7
     count = {}
@@ -993,7 +994,7 @@ def child_main(argv):
     if 'single' in spec:
         ops = [tuple(spec['single'])]
     else:
-        ops = gen_ops(spec['seed'], spec['shard'], spec['n'])
+        ops = gen_ops(spec['seed'], spec['shard'], spec['n'], spec.get('batch', 0))
     ex = Executor(mpmath, libmp)
     import signal
 
@@ -1453,9 +1454,14 @@ def run_pair(rec, spec, flavor, ops, timeout, case_extra):
 
 def run_shard(shard, rec):
     flavor = shard['flavor']
-    spec = {'seed': shard['seed'], 'shard': shard['shard'], 'n': shard['n'], 'tier': shard['tier']}
-    ops = gen_ops(shard['seed'], shard['shard'], shard['n'])
-    run_pair(rec, spec, flavor, ops, CHILD_TIMEOUT[shard['tier']], {})
+    left, b = shard['n'], 0
+    while left > 0:
+        n = min(left, BATCH)
+        spec = {'seed': shard['seed'], 'shard': shard['shard'], 'n': n, 'tier': shard['tier'], 'batch': b}
+        ops = gen_ops(shard['seed'], shard['shard'], n, b)
+        run_pair(rec, spec, flavor, ops, CHILD_TIMEOUT[shard['tier']], {})
+        left -= n
+        b += 1
     rec.event('shim flavour ' + flavor, 1)
 
 
